@@ -84,10 +84,8 @@ func (s *State) layoutOf(e *Expr, depth int) ([]seg, string) {
 	out = mergeOctetPairs(out)
 	// no empty byte strings, adjacent gaps merged
 	var norm []seg
-	for i, g := range out {
-		// (a trailing byte string stays a segment even when it is known to be
-		// empty in this state: "…, len(x), x" with x empty is still that shape)
-		if g.Kind == "bytes" && i != len(out)-1 {
+	for _, g := range out {
+		if g.Kind == "bytes" {
 			if v, ok := s.rangeOf(mkLen(g.Val)).IsConst(); ok && v == 0 {
 				continue
 			}
